@@ -21,7 +21,7 @@ TreeFails(c, tr) ==
   IN {cl \in {"interval", "parent", "edge", "ns", "nt", "num_edges", "roots", "linked", "sites", "muts", "samples",
               "mrca", "depth", "bl", "tbl", "isdesc", "nlin", "pre", "post", "in", "level", "tasc", "tdesc", "minlex",
               "leaves", "subpre", "subpost", "numroots", "mut_edges", "sackin", "colless", "b1", "path_length", "num_children",
-              "distance_between", "ancestors", "siblings", "is_isolated", "parent_dict"} :
+              "distance_between", "ancestors", "siblings", "is_isolated", "parent_dict", "samples_virtual_root"} :
      ~ CASE cl = "interval" -> tr.left = d.left /\ tr.right = d.right /\ tr.index \in 0..(NumTrees(T) - 1)
          [] cl = "parent" -> Len(tr.parent) = n + 1 /\ tr.parent[n + 1] = NULL /\ \A u \in NodesOf(T) : tr.parent[u + 1] = par[u]
          [] cl = "edge" -> Len(tr.edge) = n + 1 /\ tr.edge[n + 1] = NULL /\ \A u \in NodesOf(T) : tr.edge[u + 1] = d.edge[u]
@@ -50,6 +50,9 @@ TreeFails(c, tr) ==
          \* parent_dict: exactly the nodes that have a parent
          [] cl = "parent_dict" -> /\ {r[1] : r \in ToSet(tr.pdict)} = {u \in NodesOf(T) : par[u] # NULL}
                                   /\ \A i \in 1..Len(tr.pdict) : tr.pdict[i][2] = par[tr.pdict[i][1]]
+         \* samples(virtual_root): every sample below some root, each once (with and without sample lists)
+         [] cl = "samples_virtual_root" -> /\ ToSet(tr.vsamples) = UNION {Desc(par, r) \cap SamplesOf(T) : r \in d.roots}
+                                           /\ Len(tr.vsamples) = Cardinality(ToSet(tr.vsamples))
          [] cl = "num_children" -> \A u \in NodesOf(T) : tr.nchild[u + 1] = Cardinality(ChildrenIn(par, u))
          [] cl = "linked" -> LinkedOK(tr, par, d.roots, n) /\ SibNullOK(tr, par, d.roots, n)
          [] cl = "sites" -> ToSet(tr.sites) = {i - 1 : i \in tsites} /\ IsStrictlySorted(tr.sites)
